@@ -273,6 +273,10 @@ UNITS = [TrajectoryOnClone(), PriorTrajectoryOnClone(), McmcPersonalizeOnClone()
 # simulate's constructor on table-driven designs leaves the caller's table as it was (contract of C18, verified in its own context)
 from contracts import c18 as _c18
 UNITS += [foreign(_c18.SimInitTable(), "c18")]
+# "leave none of the call's individual latent values behind": the un-setting used by every personalisation goes through the
+# state's own assignment, so that nothing derived from them stays cached either
+from contracts import c12 as _c12
+UNITS += [foreign(_c12.UnsetIndividuals(), "c12")]
 CALLEES = [Probe(STATE + ".clone", "clone", new_clone), Probe(STATE + ".__setitem__", "set"), Probe(STATE + ".__getitem__", "get", read_value),
            Probe(STATE + ".put_individual_latent_variables", "put_individual"), Probe(STATE + ".put_population_latent_variables", "put_population"),
            Probe(MODEL + ".put_data_variables", "put_data"), Probe(MODEL + ".reset_data_variables", "reset_data"),
